@@ -308,6 +308,7 @@ def run(ctx):
             ctx.violation("dispatch/%s/bck-method-ignored" % f, "%s: the method given in bck_options was not used in the backward pass" % f, {"f": f})
         elif "tag" not in pr.calls[0]["kw"]:
             ctx.violation("dispatch/%s/bck-options-not-delivered" % f, "%s: backward options were not delivered to the backward method (saw %s)" % (f, pr.calls[0]["kw"]), {"f": f})
+    ctx.replayed = len(nodes)
     ctx.notes.update(rows=len(nodes), executed=nrows)
     ctx.exhaustive = True
     ctx.assumptions += [
